@@ -7,6 +7,7 @@ import Driver.RunCmd
 import Driver.ObjCmd
 import Driver.GcCmd
 import Driver.FlagCmd
+import Driver.CliCmd
 /-!
 # Line-protocol driver over the executable models
 
@@ -31,6 +32,7 @@ def step (s : DState) (line : String) : DState × String :=
   | ["gen", t] => (s, genLine t)
   | ["heap", o, sc] => (s, heapLine o sc)
   | ["flag", n, o] => (s, flagLine n o)
+  | ["cli", c, a, e] => (s, cliLine c a e)
   | _ => (s, "bad-op")
 
 partial def loop (h : IO.FS.Stream) (out : IO.FS.Stream) (s : DState) : IO Unit := do
